@@ -52,6 +52,17 @@ Proof.
   apply (del_node_tail g0 nm n s s' x C E Hx).
 Qed.
 
+Lemma del_api_remove_facility nm s s' x :
+  cons g0 s -> api_remove_facility nm s = (inl tt, s') -> In x (by_name g0 CNode nm) -> In x (snd s').
+Proof.
+  intros C E Hx. unfold api_remove_facility in E.
+  apply bind_ok in E. destruct E as [all [s1 [E1 E]]]. apply get_ok in E1. destruct E1 as [-> ->].
+  apply bind_ok in E. destruct E as [n [s1 [E1 E]]]. apply uniq_ok in E1. destruct E1 as [_ ->].
+  apply bind_ok in E. destruct E as [t [s1 [E1 E]]]. apply get_ok in E1. destruct E1 as [-> ->].
+  apply bind_ok in E. destruct E as [[] [s1 [E1 E]]]. apply guard_ok in E1. destruct E1 as [_ ->].
+  apply (del_node_tail g0 nm n s s' x C E Hx).
+Qed.
+
 Lemma del_api_remove_component n cname s s' c :
   cons g0 s -> api_remove_component n cname s = (inl tt, s') ->
   In c (first_neighbor g0 n RHas CComp) -> name_of g0 c = cname -> In c (snd s').
@@ -327,4 +338,110 @@ Proof.
     apply first_neighbor_In in Hc. tauto.
   - apply (closed_O_ns g tr s x HC); [apply T; right; right; left; auto | apply (prune_all_nss_class g s Hd Hs) | exact Ho].
   - apply (closed_O_cp g tr i x HC); [apply T; right; right; right; exists s; auto | exact Ho].
+Qed.
+
+(* after C08-9 the collection phase also reaches the Facility nodes *)
+Definition prune_target9 (g : graph) (x : N) : Prop :=
+  prune_target8 g x \/ (In x (all_of_class g CNode) /\ marked g x = true).
+
+Theorem prune9_targets ex cs g r g' tr :
+  ids_distinct g -> run (exec ex OPrune9 cs) g = (inl r, (g', tr)) ->
+  forall x, prune_target9 g x -> In x tr.
+Proof.
+  intros Hd E. unfold run in E. simpl in E. apply then_ret_ok in E. destruct E as [[] E].
+  unfold api_prune9 in E. pose proof (cons_init g) as C0.
+  apply bind_ok in E. destruct E as [ns_ [s1 [E1 E]]]. apply get_ok in E1. destruct E1 as [-> ->].
+  apply bind_ok in E. destruct E as [cs0 [s1 [E1 E]]]. apply get_ok in E1. destruct E1 as [-> ->].
+  apply bind_ok in E. destruct E as [ss [s1 [E1 E]]]. apply get_ok in E1. destruct E1 as [-> ->].
+  apply bind_ok in E. destruct E as [is_ [s1 [E1 E]]]. apply get_ok in E1. destruct E1 as [-> ->].
+  simpl in E.
+  apply bind_ok in E. destruct E as [[] [s1 [L1 E]]].
+  apply bind_ok in E. destruct E as [[] [s2 [L2 E]]].
+  apply bind_ok in E. destruct E as [[] [s3 [L3 L4]]].
+  (* loop 1: nodes, facilities included *)
+  destruct (guarded_loop g CNode snd
+              (fun nn => bind (m_get (fun g => type_of g (snd nn))) (fun t =>
+                         if N.eqb t T_Facility then api_remove_facility (fst nn) else api_remove_node (fst nn)))
+              (map (fun n : N => (name_of g n, n)) (filter (marked g) (all_of_class g CNode))) (g, []) s1 ltac:(discriminate))
+    as [C1 H1]; [| | |exact C0|exact L1|].
+  { intros nn. apply Inv_bind; [apply Inv_get | intros t].
+    destruct (N.eqb t T_Facility); [apply Inv_api_remove_facility | apply Inv_api_remove_node]. }
+  { intros [nm n] t t' Ha Ct Et. simpl in *. apply in_map_iff in Ha. destruct Ha as [n' [En Hn]].
+    injection En as En1 En2. subst n'. apply filter_In in Hn. destruct Hn as [Hn _].
+    destruct (all_of_class_facts g CNode n Hd Hn) as [_ Hb]. rewrite En1 in Hb.
+    apply bind_ok in Et. destruct Et as [ty [t1 [E1 Et]]]. apply get_ok in E1. destruct E1 as [-> ->].
+    destruct (N.eqb (type_of (fst t) n) T_Facility).
+    - apply (del_api_remove_facility g nm t t' n Ct Et Hb).
+    - apply (del_api_remove_node g nm t t' n Ct Et Hb). }
+  { intros [nm n] Ha. simpl. apply in_map_iff in Ha. destruct Ha as [n' [En Hn]]. injection En as _ En2. subst n'.
+    apply filter_In in Hn. destruct Hn as [Hn _].
+    apply (all_of_class_facts g CNode n Hd Hn). }
+  (* loop 2: components *)
+  destruct (guarded_loop g CComp (fun cn : N * (N * N) => fst (snd cn))
+              (fun cn => api_remove_component (snd (snd cn)) (fst cn))
+              (map (fun cn : N * N => (name_of g (fst cn), cn)) (filter (fun cn : N * N => marked g (fst cn)) (prune_comps g)))
+              s1 s2 ltac:(discriminate)
+              (fun cn => Inv_api_remove_component (snd (snd cn)) (fst cn))) as [C2 H2]; [| |exact C1|exact L2|].
+  { intros [cname [c n]] t t' Ha Ct Et. simpl in *. apply in_map_iff in Ha. destruct Ha as [[c' n'] [En Hn]].
+    simpl in En. injection En as En1 En2 En3. subst c' n'. apply filter_In in Hn. destruct Hn as [Hn _].
+    unfold prune_comps in Hn. apply in_flat_map in Hn. destruct Hn as [m [_ Hn]].
+    apply in_map_iff in Hn. destruct Hn as [c'' [Ec Hn]]. injection Ec as Ec1 Ec2. subst c'' m.
+    apply (del_api_remove_component g n cname t t' c Ct Et Hn En1). }
+  { intros [cname [c n]] Ha. simpl. apply in_map_iff in Ha. destruct Ha as [[c' n'] [En Hn]].
+    simpl in En. injection En as _ En2 En3. subst c' n'. apply filter_In in Hn. destruct Hn as [Hn _].
+    unfold prune_comps in Hn. apply in_flat_map in Hn. destruct Hn as [m [_ Hn]].
+    apply in_map_iff in Hn. destruct Hn as [c'' [Ec Hn]]. injection Ec as Ec1 Ec2. subst c'' m.
+    apply first_neighbor_In in Hn. tauto. }
+  (* loop 3: services *)
+  destruct (guarded_loop g CNS (fun s : N => s) remove_ns_disconnecting
+              (dedup (filter (marked g) (prune_all_nss g))) s2 s3 ltac:(discriminate)
+              Inv_remove_ns_disconnecting) as [C3 H3]; [| |exact C2|exact L3|].
+  { intros s t t' _ Ct Et. apply (del_remove_ns_disconnecting g s t t' Ct Et). }
+  { intros s Ha. rewrite dedup_In in Ha. apply filter_In in Ha. destruct Ha as [Ha _].
+    apply (prune_all_nss_class g s Hd Ha). }
+  (* loop 4: interfaces and sub-interfaces *)
+  destruct (guarded_loop g CCP (fun i : N => i)
+              (fun i => bind (m_get (fun g => disc_list g [i])) (fun ifs =>
+                        bind (for_each_set disconnect_step ifs) (fun _ =>
+                        bind (m_get (fun g => negb (N.eqb (type_of g i) T_SubInterface))) (fun dp =>
+                        remove_cp_and_links i dp))))
+              (dedup (filter (marked g) (flat_map (with_children g) (flat_map (ns_interfaces g) (prune_all_nss g)))))
+              s3 (g', tr) ltac:(discriminate)) as [_ H4]; [| | |exact C3|exact L4|].
+  { intros i. apply Inv_bind; [apply Inv_get | intros ifs].
+    apply Inv_bind; [apply Inv_for_each_set; intros k; apply Inv_disconnect_step | intros _].
+    apply Inv_bind; [apply Inv_get | intros dp]. apply Inv_remove_cp. }
+  { intros i t t' _ Ct Et.
+    apply bind_ok in Et. destruct Et as [ifs [t1 [E1 Et]]]. apply get_ok in E1. destruct E1 as [-> ->].
+    apply bind_ok in Et. destruct Et as [[] [t1 [E1 Et]]].
+    pose proof (cons_to g _ _ _ _ (Inv_for_each_set _ _ Inv_disconnect_step) Ct E1) as C1'.
+    apply bind_ok in Et. destruct Et as [dp [t2 [E2 Et]]]. apply get_ok in E2. destruct E2 as [-> ->].
+    apply (del_remove_cp g i _ t1 t' C1' Et). }
+  { intros i Ha. rewrite dedup_In in Ha. apply filter_In in Ha. destruct Ha as [Ha _].
+    apply in_flat_map in Ha. destruct Ha as [j [Hj Ha]].
+    apply in_flat_map in Hj. destruct Hj as [s [_ Hj]].
+    unfold with_children in Ha. destruct Ha as [<-|Ha]; [apply (cpn_class g s); exact Hj|].
+    destruct (N.eqb (type_of g j) T_DedicatedPort); [|destruct Ha]. apply (cpn_class g j). exact Ha. }
+  (* collect *)
+  assert (X1 : forall y, In y (snd s1) -> In y tr).
+  { intros y Hy.
+    apply (ext_to g _ _ _ _ y (Inv_for_each_set _ _ Inv_prune_if8) C3 L4).
+    apply (ext_to g _ _ _ _ y (Inv_for_each_set _ _ Inv_prune_ns7) C2 L3).
+    apply (ext_to g _ _ _ _ y (Inv_for_each_set _ _ Inv_prune_comp7) C1 L2). exact Hy. }
+  assert (X2 : forall y, In y (snd s2) -> In y tr).
+  { intros y Hy.
+    apply (ext_to g _ _ _ _ y (Inv_for_each_set _ _ Inv_prune_if8) C3 L4).
+    apply (ext_to g _ _ _ _ y (Inv_for_each_set _ _ Inv_prune_ns7) C2 L3). exact Hy. }
+  assert (X3 : forall y, In y (snd s3) -> In y tr).
+  { intros y Hy. apply (ext_to g _ _ _ _ y (Inv_for_each_set _ _ Inv_prune_if8) C3 L4). exact Hy. }
+  intros x [[[[Hx Hm]|[[n [Hx Hm]]|[[Hx Hm]|[s [Hs [Hx Hm]]]]]]|[s [j [Hs [Hj [Hx Hm]]]]]]|[Hx Hm]].
+  - apply X1. apply (H1 (name_of g x, x)). apply in_map_iff. exists x. split; [reflexivity|]. apply filter_In.
+    split; [|exact Hm]. unfold prune_nodes in Hx. apply filter_In in Hx. tauto.
+  - apply X2. apply (H2 (name_of g x, (x, n))). apply in_map_iff. exists (x, n). split; [reflexivity|].
+    apply filter_In. auto.
+  - apply X3. apply (H3 x). rewrite dedup_In. apply filter_In. auto.
+  - apply (H4 x). rewrite dedup_In. apply filter_In. split; [|exact Hm]. apply in_flat_map. exists x.
+    split; [apply in_flat_map; exists s; auto | left; reflexivity].
+  - apply (H4 x). rewrite dedup_In. apply filter_In. split; [|exact Hm]. apply in_flat_map. exists j.
+    split; [apply in_flat_map; exists s; auto | exact Hx].
+  - apply X1. apply (H1 (name_of g x, x)). apply in_map_iff. exists x. split; [reflexivity|]. apply filter_In. auto.
 Qed.
